@@ -414,6 +414,14 @@ def configs(tier):
                 'args': {'ops': ['sync0', 'mut0', 'sync0'], 'ninds': 1, 'same_id': False, 'thread_safe': False}, 'weight': 50, 'engine': ve})
     out.append({'name': 'history-s0-s1-not-thread-safe-no-bulk-sync', 'task': 'history',
                 'args': {'ops': ['sync0', 'sync1'], 'ninds': 2, 'same_id': False, 'thread_safe': False, 'plain': True}, 'weight': 60, 'engine': ve})
+    if not Q:
+        # further combinations of the store options: rewrite mode without journal, rows written one by one, same id twice
+        out.append({'name': 'history-s-m-s-rewrite-mode-not-thread-safe', 'task': 'history',
+                    'args': {'ops': ['sync0', 'mut0', 'sync0'], 'ninds': 1, 'same_id': False, 'mode': 'rewrite', 'thread_safe': False}, 'weight': 50, 'engine': ve})
+        out.append({'name': 'history-same-id-last-wins-not-thread-safe', 'task': 'history',
+                    'args': {'ops': ['sync0', 'sync1'], 'ninds': 2, 'same_id': True, 'thread_safe': False}, 'weight': 60, 'split': 48, 'engine': ve})
+        out.append({'name': 'history-s0-im0-s0-s1-not-thread-safe', 'task': 'history',
+                    'args': {'ops': ['sync0', 'imut0', 'sync0', 'sync1'], 'ninds': 2, 'same_id': False, 'thread_safe': False}, 'weight': 60, 'split': 48, 'engine': ve})
     out.append({'name': 'history-s-m-all-rewrite-mode', 'task': 'history',
                 'args': {'ops': ['sync0', 'mut0', 'all'], 'ninds': 1, 'same_id': False, 'mode': 'rewrite'}, 'weight': 50, 'engine': ve})
     # MANY individuals in one store (only the first one carries solver choices): sync_all alone, and sync_all after some
